@@ -168,6 +168,8 @@ enum PreOp {
 }
 
 struct ACase {
+    /// data, gas, caller, value, target, bytecode address as alloy passes them
+    meta: (Vec<u8>, u64, Address, U256, Address, Address),
     is_static: bool,
     reservoir: u64,
     ops: Vec<Op>,
@@ -234,7 +236,16 @@ fn gen_acase(rng: &mut Rng, boundary: bool) -> ACase {
         3 => ImplRet::Revert(rng.below(100)),
         _ => ImplRet::Ok(rng.below(5000), vec![rng.below(256) as u8; rng.below(4) as usize]),
     };
+    let target = if rng.chance(1, 3) { a_addr(rng.below(6)) } else { A_PRECOMPILE };
     ACase {
+        meta: (
+            (0..rng.below(5)).map(|_| rng.below(256) as u8).collect(),
+            *rng.pick(&[0u64, 100_000, u64::MAX]),
+            Address::with_last_byte(rng.below(256) as u8),
+            U256::from(rng.below(3)),
+            target,
+            A_PRECOMPILE,
+        ),
         is_static: rng.chance(1, 3),
         reservoir: *rng.pick(&[0u64, 7, 1 << 40, u64::MAX]),
         ops,
@@ -295,6 +306,7 @@ fn prepare(c: &ACase) -> (EthEvmContext<LogDb>, Option<revm_context::journaled_s
 struct BodyLog {
     results: Vec<String>,
     db_len_after: Vec<usize>,
+    metadata: String,
 }
 
 fn canon_err(e: &ParallelPrecompileError) -> String {
@@ -307,6 +319,11 @@ fn canon_err(e: &ParallelPrecompileError) -> String {
 /// The scripted body, written against the public facade API only.
 fn run_script(input: &mut ParallelPrecompileInput<'_>, ops: &[Op], ret: &ImplRet, log: &Mutex<BodyLog>, dblog: &Mutex<Vec<String>>) -> ParallelPrecompileResult {
     let reservoir = input.reservoir();
+    log.lock().unwrap().metadata = format!(
+        "data={} gas={} reservoir={} caller={:x} value={:x} target={:x} bytecode={:x} static={} direct={}",
+        gc::hex(input.data()), input.gas(), input.reservoir(), input.caller(), input.value(), input.target_address(),
+        input.bytecode_address(), input.is_static(), input.is_direct_call()
+    );
     for op in ops {
         let r: Result<String, ParallelPrecompileError> = match op.kind {
             OpKind::Balance => input.state().balance(op.a).map(|l| format!("ok bal={:x} cold={}", l.data, l.is_cold)),
@@ -339,6 +356,8 @@ fn canon_presult(r: &PrecompileResult) -> String {
 }
 
 struct ARun {
+    metadata: String,
+    caching: bool,
     results: Vec<String>,
     db_len_after: Vec<usize>,
     dblog: Vec<String>,
@@ -356,17 +375,19 @@ fn real_run(c: &ACase) -> ARun {
     let log = Arc::new(Mutex::new(BodyLog::default()));
     let (ops, ret, log2, dblog2) = (c.ops.clone(), c.ret.clone(), log.clone(), dblog.clone());
     let pc = DynParallelPrecompile::new(PrecompileId::custom("verif-script"), move |input| run_script(input, &ops, &ret, &log2, &dblog2));
+    let alloy = pc.to_alloy();
+    let caching = AlloyPrecompile::supports_caching(&alloy);
     let r = AlloyPrecompile::call(
-        &pc.to_alloy(),
+        &alloy,
         PrecompileInput {
-            data: b"input",
-            gas: 100_000,
+            data: &c.meta.0,
+            gas: c.meta.1,
             reservoir: c.reservoir,
-            caller: Address::with_last_byte(1),
-            value: U256::from(2),
-            target_address: A_PRECOMPILE,
+            caller: c.meta.2,
+            value: c.meta.3,
+            target_address: c.meta.4,
             is_static: c.is_static,
-            bytecode_address: A_PRECOMPILE,
+            bytecode_address: c.meta.5,
             internals: EvmInternals::from_context(&mut ctx),
         },
     );
@@ -377,6 +398,8 @@ fn real_run(c: &ACase) -> ARun {
     });
     let g = log.lock().unwrap();
     ARun {
+        metadata: g.metadata.clone(),
+        caching,
         results: g.results.clone(),
         db_len_after: g.db_len_after.clone(),
         dblog: dblog.lock().unwrap().clone(),
@@ -470,7 +493,11 @@ fn twin_run(c: &ACase) -> ARun {
     while answers.len() < c.ops.len() {
         answers.push('u');
     }
-    ARun { results, db_len_after, dblog: dblog.lock().unwrap().clone(), snap, snap_reverted, adapter: canon_presult(&adapter), journal_calls, answers }
+    let metadata = format!(
+        "data={} gas={} reservoir={} caller={:x} value={:x} target={:x} bytecode={:x} static={} direct={}",
+        gc::hex(&c.meta.0), c.meta.1, c.reservoir, c.meta.2, c.meta.3, c.meta.4, c.meta.5, c.is_static, c.meta.4 == c.meta.5
+    );
+    ARun { metadata, caching: false, results, db_len_after, dblog: dblog.lock().unwrap().clone(), snap, snap_reverted, adapter: canon_presult(&adapter), journal_calls, answers }
 }
 
 fn class_of_result(s: &str) -> &'static str {
@@ -509,6 +536,12 @@ fn adapter_case(idx: u64, rng: &mut Rng, out: &mut Out) {
         c.ops.iter().map(|o| format!("{:?}({:x},{:x},{:x}){}", o.kind, o.a, o.k, o.v, if o.propagate { "?" } else { "_" })).collect::<Vec<_>>()
     );
     // ---- model-independent predicates ----
+    if real.metadata != twin.metadata {
+        out.fail("adapter-metadata-not-forwarded", format!("implementation saw `{}`, alloy passed `{}`", real.metadata, twin.metadata), descr.clone());
+    }
+    if real.caching {
+        out.fail("adapter-enables-result-caching", "supports_caching() is true: alloy would reuse a result computed from other journal state".into(), descr.clone());
+    }
     let first_fault = twin.results.iter().position(|r| !r.starts_with("ok"));
     if real.results != twin.results {
         let i = real.results.iter().zip(twin.results.iter()).position(|(a, b)| a != b).unwrap_or(real.results.len().min(twin.results.len()));
